@@ -414,8 +414,10 @@ impl<'a, T> ChordsV2<'a, T> {
                         .all(|pk| accumulated_presses.contains(pk))
                     {
                         let ach = get_active_chord(cch, since, coord, relevant_release_found);
-                        let overflow = self.active_chords.push(ach);
-                        assert!(overflow.is_ok(), "active chords has room");
+                        if self.active_chords.push(ach).is_err() {
+                            // All slots are taken: treat the keys as not completing a chord.
+                            no_chord_activations!(self);
+                        }
                         break;
                     }
                 }
@@ -447,8 +449,9 @@ impl<'a, T> ChordsV2<'a, T> {
                         Some(cch) => {
                             let coord = self.next_coord();
                             let ach = get_active_chord(cch, since, coord, relevant_release_found);
-                            let overflow = self.active_chords.push(ach);
-                            assert!(overflow.is_ok(), "active chords has room");
+                            if self.active_chords.push(ach).is_err() {
+                                no_chord_activations!(self);
+                            }
                         }
                         None => no_chord_activations!(self),
                     }
@@ -500,8 +503,9 @@ impl<'a, T> ChordsV2<'a, T> {
                 Some(cch) => {
                     let ach =
                         get_active_chord(cch, since, self.next_coord(), relevant_release_found);
-                    let overflow = self.active_chords.push(ach);
-                    assert!(overflow.is_ok(), "active chords has room");
+                    if self.active_chords.push(ach).is_err() {
+                        no_chord_activations!(self);
+                    }
                 }
                 None => {
                     no_chord_activations!(self)
